@@ -116,3 +116,167 @@ Proof.
         rewrite status_eqb_refl_nf in EB; auto. discriminate.
     + apply IH. intros u U HU HS. destruct (C _ _ HU HS) as [<-|]; auto. congruence.
 Qed.
+
+Lemma no_blk_count : forall f (ts : list task),
+  (forall u U, nth_error ts u = Some U -> f U = 0) -> sumf f ts = 0.
+Proof.
+  induction ts as [|a ts IH]; intros H; cbn; auto.
+  rewrite (H 0 a eq_refl). rewrite IH; auto. intros u U HU. apply (H (S u)); auto.
+Qed.
+
+Lemma cover_upd_other : forall b l ts t x, cover b l ts -> st x <> b -> cover b l (upd ts t x).
+Proof.
+  intros b l ts t x C N u U HU HS. rewrite nth_upd in HU. destruct (Nat.eqb t u).
+  - destruct (nth_error ts t); [|discriminate]. injection HU as <-. congruence.
+  - eapply C; eauto.
+Qed.
+
+Lemma cover_upd_blk : forall b l ts t x, cover b l ts -> cover b (l ++ [t]) (upd ts t x).
+Proof.
+  intros b l ts t x C u U HU HS. rewrite nth_upd in HU. apply in_or_app.
+  destruct (Nat.eqb_spec t u) as [->|N]; [right; left; auto|]. left. eapply C; eauto.
+Qed.
+
+Lemma cover_app_tasks : forall b l ts x, cover b l ts -> st x <> b -> cover b l (ts ++ [x]).
+Proof.
+  intros b l ts x C N u U HU HS. destruct (Nat.lt_ge_cases u (length ts)) as [L|G].
+  - rewrite nth_error_app1 in HU by auto. eapply C; eauto.
+  - rewrite nth_error_app2 in HU by auto. destruct (u - length ts) as [|k]; cbn in HU.
+    + injection HU as <-. congruence.
+    + destruct k; discriminate.
+Qed.
+
+Lemma in_remove1 : forall t u l, In u l -> u <> t -> In u (remove1 t l).
+Proof.
+  induction l as [|v l IH]; cbn; intros H N; auto.
+  destruct (Nat.eqb_spec v t) as [->|NE].
+  - destruct H; [congruence|auto].
+  - destruct H; [left; auto|right; auto].
+Qed.
+
+Lemma cover_remove : forall b l ts t x, cover b l ts -> st x <> b -> cover b (remove1 t l) (upd ts t x).
+Proof.
+  intros b l ts t x C N u U HU HS. rewrite nth_upd in HU. destruct (Nat.eqb_spec t u) as [->|NE].
+  - destruct (nth_error ts u); [|discriminate]. injection HU as <-. congruence.
+  - apply in_remove1; auto. eapply C; eauto.
+Qed.
+
+Lemma cover_weaken_list : forall b l l' ts, cover b l ts -> (forall u, In u l -> In u l') -> cover b l' ts.
+Proof. intros b l l' ts C H u U HU HS. apply H. eapply C; eauto. Qed.
+
+(* ---------------------------------------------------------------- case analysis of [step] *)
+Ltac split_match H :=
+  match type of H with
+  | context [match ?x with _ => _ end] =>
+      match x with
+      | context [match _ with _ => _ end] => fail 1
+      | _ => (is_var x; destruct x) || (let E := fresh "E" in destruct x eqn:E)
+      end
+  end.
+
+Ltac step_inv H :=
+  unfold step, step_b, step_ready, do_put, do_get, finally_cancelled, cancel_task, next_item in H;
+  cbv beta iota in H;
+  repeat (split_match H; try discriminate H; cbv beta iota in H);
+  try (injection H as H); subst.
+
+(* ---------------------------------------------------------------- configuration constants *)
+Lemma step_pinned : forall s t s', step s t = Some s' -> pinned s' = pinned s.
+Proof. intros s t s' H. step_inv H; reflexivity. Qed.
+
+Lemma step_maxsize : forall s t s', step s t = Some s' -> maxsize s' = maxsize s.
+Proof. intros s t s' H. step_inv H; reflexivity. Qed.
+
+Lemma reach_pinned : forall c s, Reach c s -> pinned s = c_pinned c.
+Proof. induction 1; [reflexivity|]. erewrite step_pinned; eauto. Qed.
+
+Lemma reach_maxsize : forall c s, Reach c s -> maxsize s = c_maxsize c.
+Proof. induction 1; [reflexivity|]. erewrite step_maxsize; eauto. Qed.
+
+(* ---------------------------------------------------------------- history: conservation + global FIFO *)
+Definition hist_inv (s : state) : Prop :=
+  pinned s = false -> sent s = received s ++ reals (q s) /\ unfin s = length (q s).
+
+Lemma reals_app : forall a b, reals (a ++ b) = reals a ++ reals b.
+Proof. intros. unfold reals. apply filter_app. Qed.
+
+Ltac simp_proj :=
+  cbn [q maxsize getters putters closed flushed W unfin tasks pinned sent recv npre drained
+       set_task with_tasks with_getters with_putters with_W with_unfin with_drained
+       wake_getters wake_putters put_nowait] in *.
+
+Lemma hist_step : forall s t s', step s t = Some s' -> hist_inv s -> hist_inv s'.
+Proof.
+  intros s t s' H I. step_inv H; simp_proj; unfold hist_inv, received in *; simp_proj; try exact I.
+  all: intros P; specialize (I P); destruct I as [I1 I2]; try congruence.
+  all: repeat match goal with E : q _ = _ |- _ => rewrite E in *; clear E end.
+  all: cbn [length] in *.
+  all: split; [|rewrite ?app_length; cbn [length]; try lia; try congruence].
+  all: try (rewrite I1, ?map_app, ?reals_app; cbn [map snd reals filter is_real app]; rewrite <- ?app_assoc; reflexivity).
+  all: cbn [reals filter is_real] in I1; rewrite ?reals_app; cbn [reals filter is_real]; rewrite ?app_nil_r; try exact I1.
+  all: exfalso; lia.
+Qed.
+
+(* ---------------------------------------------------------------- which future _wakeup_next completed *)
+Ltac wake_cases :=
+  match goal with
+  | |- context [wakeup ?b ?w ?l ?ts] =>
+      let HE := fresh "HE" in let Hno := fresh "Hno" in
+      let u := fresh "u" in let U := fresh "U" in let HU := fresh "HU" in
+      let HUs := fresh "HUs" in let HUin := fresh "HUin" in
+      destruct (wakeup_effect b w l ts eq_refl) as [[HE Hno]|(u & U & HU & HUs & HUin & HE)];
+      rewrite ?HE in *;
+      [ | try match goal with
+              | E : nth_error ts ?t = Some ?t0 |- _ =>
+                  lazymatch t with u => fail | _ => idtac end;
+                  assert (nth_error (upd ts u (set_st U w)) t = Some t0)
+                    by (rewrite nth_upd_other; [exact E | intros ->; rewrite HU in E; injection E as ->; congruence])
+              end ]
+  end.
+
+(* ---------------------------------------------------------------- per-sender numbering of the sent log *)
+Definition nso (L : list task) (v : nat) : nat := match nth_error L v with Some T => nsent T | None => 0 end.
+
+Lemma nso_upd_keep : forall L i x a v, nth_error L i = Some a -> nsent x = nsent a -> nso (upd L i x) v = nso L v.
+Proof.
+  intros. unfold nso. rewrite nth_upd. destruct (Nat.eqb_spec i v) as [->|]; auto. rewrite H. congruence.
+Qed.
+
+Lemma nso_upd_put : forall L i x a v, nth_error L i = Some a ->
+  nso (upd L i x) v = if Nat.eqb i v then nsent x else nso L v.
+Proof.
+  intros. unfold nso. rewrite nth_upd. destruct (Nat.eqb_spec i v) as [->|]; auto. rewrite H. auto.
+Qed.
+
+Lemma nso_app_flush : forall L v, nso (L ++ [flush_task]) v = nso L v.
+Proof.
+  intros. unfold nso. destruct (Nat.lt_ge_cases v (length L)) as [Lt|G].
+  - rewrite nth_error_app1; auto.
+  - rewrite nth_error_app2 by auto. replace (nth_error L v) with (@None task) by (symmetry; apply nth_error_None; auto).
+    destruct (v - length L) as [|[|k]]; reflexivity.
+Qed.
+
+Definition numbered (s : state) : Prop :=
+  forall v, filter (from v) (sent s) = map (Msg v) (seq 0 (nso (tasks s) v)).
+
+Ltac nso_simpl :=
+  repeat first
+    [ rewrite nso_app_flush
+    | match goal with
+      | H : nth_error ?L ?i = Some ?a |- context [nso (upd ?L ?i ?x) _] =>
+          rewrite (nso_upd_keep L i x a _ H eq_refl)
+      end ].
+
+Lemma numbered_step : forall s t s', step s t = Some s' -> numbered s -> numbered s'.
+Proof.
+  intros s t s' H I. step_inv H; simp_proj; unfold numbered in *; simp_proj; try exact I.
+  all: intros v; specialize (I v); try wake_cases; nso_simpl; try exact I.
+  all: try match goal with
+       | H : nth_error ?L ?i = Some ?a |- context [nso (upd ?L ?i ?x) _] => rewrite (nso_upd_put L i x a _ H); cbn [nsent]
+       end.
+  all: rewrite ?filter_app; cbn [filter from].
+  all: try match goal with |- context [Nat.eqb ?a ?b] => destruct (Nat.eqb_spec a b) as [EQ|NE]; [try subst b|] end.
+  all: rewrite ?app_nil_r; nso_simpl; try exact I.
+  all: try (rewrite I; nso_simpl; unfold nso; match goal with E : nth_error _ _ = Some _ |- _ => rewrite E end;
+            rewrite seq_S, map_app; reflexivity).
+Qed.
